@@ -322,7 +322,8 @@ def blockValue (X : Expanders) (b : Block) : Outcome Value :=
       let e ← uint32LE "cram.Block.Value:binary.LittleEndian.Uint32(blockData[:4])" b4
       if e > blockData.length - 4 then err
       else do
-        let text ← slice "cram.Block.Value:blockData[4 : 4+end]" blockData 4 (add32 4 e)
+        -- repair C11-23: `4+uint64(end)`; before it `4+end` in uint32 wrapped for blockData of 4 GiB or more
+        let text ← slice "cram.Block.Value:blockData[4 : 4+end]" blockData 4 (4 + e)
         ok (.headerText text)
   else if b.typ = 2 then do
     let s ← readSliceHdr b.data
